@@ -65,6 +65,9 @@ type recvIn struct {
 	Frag         bool    `json:"frag,omitempty"`          // WS only: every element is sent as ONE websocket message made of two frames (RFC 6455 5.4: any sender or intermediary may fragment)
 	PeerCloseNow bool    `json:"peerclosenow,omitempty"`  // WS only: the server closes the websocket IMMEDIATELY after its last element, while the client is still behind with reading: everything sent before the close must still be routed
 	PeerClose    bool    `json:"peerclose,omitempty"`     // WS only: the server closes the websocket after the last element (no keepalive runs): the read path itself must report the loss
+	LateRecv     string  `json:"laterecv,omitempty"`      // WS only: the server sends everything, then its end of the TCP connection is closed; only THEN does the receiver start: "write" (the answers to <r/> are written on the dead connection: every one of them is attempted and none arrives) or "keepalive" (a keepalive runs meanwhile: its ping fails and it closes the transport before the receiver has read anything). Everything the server sent was received and has to be routed
+	LogFailAt    int     `json:"logfailat,omitempty"`     // Logged only: from this write on (1-based) the traffic log refuses every write: what is read from the connection must still be delivered
+	NoErrH       bool    `json:"noerrh,omitempty"`        // the client is created without an error callback (nil)
 	Logged       bool    `json:"logged,omitempty"`        // real XMPPTransport read path with the traffic logger, over a scripted net.Conn
 	ErrWithData  bool    `json:"err_with_data,omitempty"` // the last bytes and the read error arrive in the same Read call
 }
@@ -297,16 +300,17 @@ func recvInputSx(in recvIn) Sx {
 	items := in.completeItems()
 	xs := make([]Sx, len(items))
 	for i, it := range items {
-		if in.Component {
-			it.Repl = false // a component has no such branch
-		}
 		xs[i] = it.sx()
 	}
 	var idx []Sx
 	for _, k := range in.failingWrites() {
 		idx = append(idx, Zi(k))
 	}
-	return L(B(in.Component), Zi(in.Inb), L(LS(idx), Zi(in.WFrom)), LS(xs))
+	wfrom := in.WFrom
+	if in.LateRecv == "write" {
+		wfrom = 1 // the peer is gone: no answer arrives
+	}
+	return L(B(in.Component), Zi(in.Inb), L(LS(idx), Zi(wfrom)), LS(xs), L(B(in.NoErrH)))
 }
 
 // failingWrites: the individually failing writes (1-based), WFail first.
@@ -325,7 +329,7 @@ func (in recvIn) failingWrites() []int {
 
 // writeFails: does the k-th (1-based) write of the receive loop fail?
 func (in recvIn) writeFails(k int) bool {
-	if in.WFrom > 0 && k >= in.WFrom {
+	if (in.WFrom > 0 && k >= in.WFrom) || in.LateRecv == "write" {
 		return true
 	}
 	for _, f := range in.failingWrites() {
@@ -348,7 +352,7 @@ func (in recvIn) processedItems() (processed []rItem, endedBy string) {
 			return processed, "close"
 		}
 		processed = append(processed, it)
-		if it.T == "serr" && it.Repl && !in.Component {
+		if it.T == "serr" && it.Repl {
 			return processed, "handover"
 		}
 	}
@@ -500,7 +504,7 @@ func runRecv(in recvIn) Sx {
 	var serrRepl []bool
 	for _, it := range in.Items {
 		if it.T == "serr" {
-			serrRepl = append(serrRepl, it.Repl && !in.Component)
+			serrRepl = append(serrRepl, it.Repl)
 		}
 	}
 	nserrSeen := 0
@@ -508,6 +512,7 @@ func runRecv(in recvIn) Sx {
 	wantID := ""
 	var wantQ *stanza.UnAckQueue
 	var hook *stubHooks
+	var comp *xmpp.Component
 	errH := func(err error) { sampleQuit(); lg.addSync(L(Z(4))) }
 	evH := func(e xmpp.Event) error {
 		sampleQuit()
@@ -522,7 +527,12 @@ func runRecv(in recvIn) Sx {
 			if k < len(serrRepl) && serrRepl[k] {
 				// what a StreamManager does from inside this handler: by the time it returns the transport holds the
 				// connection (and decoder) of a new session
-				hook.replaceDecoder()
+				if in.Component {
+					// Disconnect and Resume from inside the handler: the component holds another transport now
+					xmpp.VerifComponentSetTransport(comp, &stubHooks{st: st, tr: st, lg: &recvLog{}})
+				} else {
+					hook.replaceDecoder()
+				}
 			}
 		default:
 			lg.addSync(L(Z(60), Zi(int(xmpp.VerifEventState(e)))))
@@ -532,10 +542,18 @@ func runRecv(in recvIn) Sx {
 	hook = &stubHooks{st: st, tr: st, lg: lg, sample: sampleQuit}
 	if in.Logged {
 		// the real XMPPTransport read/write path (traffic logger, buffered decoder) over a scripted connection
-		var logBuf bytes.Buffer
-		xt := xmpp.VerifXMPPTransportLoggedOnConn(&fakeConn{st: st, errWithData: in.ErrWithData}, &logBuf, 1)
+		var logW io.Writer = &bytes.Buffer{}
+		var flog *failingLog
+		if in.LogFailAt > 0 {
+			flog = &failingLog{failFrom: in.LogFailAt}
+			logW = flog
+		}
+		xt := xmpp.VerifXMPPTransportLoggedOnConn(&fakeConn{st: st, errWithData: in.ErrWithData}, logW, 1)
 		if _, err := stanza.InitStream(xt.GetDecoder()); err != nil {
 			return L(SBytes("stub-start-failed"))
+		}
+		if flog != nil {
+			flog.arm() // the log fails in the middle of the session, not before it
 		}
 		hook.tr = xt
 	} else if _, err := st.StartStream(); err != nil {
@@ -557,6 +575,7 @@ func runRecv(in recvIn) Sx {
 	if in.Component {
 		c, _ := xmpp.NewComponent(xmpp.ComponentOptions{Domain: "comp.localhost", Secret: "s"}, router, errH)
 		c.SetHandler(evH)
+		comp = c
 		xmpp.VerifComponentSetTransport(c, hook)
 		go func() {
 			lg.mu.Lock()
@@ -568,7 +587,11 @@ func runRecv(in recvIn) Sx {
 		}()
 	} else {
 		cfg := &xmpp.Config{TransportConfiguration: xmpp.TransportConfiguration{Address: "localhost:1"}, Jid: "u@localhost", Credential: xmpp.Password("p"), StreamManagementEnable: in.SM}
-		c, err := xmpp.NewClient(cfg, router, errH)
+		var cb func(error) = errH
+		if in.NoErrH {
+			cb = nil
+		}
+		c, err := xmpp.NewClient(cfg, router, cb)
 		if err != nil {
 			return L(SBytes("newclient-failed"))
 		}
@@ -729,6 +752,43 @@ func (h *stubHooks) sampled() {
 	}
 }
 
+// failingLog: a traffic log that stops accepting writes (disk full, file gone).
+type failingLog struct {
+	mu       sync.Mutex
+	n        int
+	failFrom int
+	armed    bool
+}
+
+func (f *failingLog) arm() { f.mu.Lock(); f.armed, f.n = true, 0; f.mu.Unlock() }
+
+func (f *failingLog) Write(p []byte) (int, error) {
+	f.mu.Lock()
+	defer f.mu.Unlock()
+	f.n++
+	if f.armed && f.n >= f.failFrom {
+		return 0, fmt.Errorf("traffic log: no space left on device")
+	}
+	return len(p), nil
+}
+
+// sendLog: a traffic log that keeps the answers <a h=/> the transport was asked to write (the "SEND:" entries).
+type sendLog struct {
+	mu      sync.Mutex
+	answers []Sx
+}
+
+func (l *sendLog) Write(p []byte) (int, error) {
+	if body := strings.TrimSuffix(strings.TrimPrefix(string(p), "SEND:\n"), "\n\n"); body != string(p) {
+		if v, ok := smAnswerH([]byte(body)); ok {
+			l.mu.Lock()
+			l.answers = append(l.answers, L(Z(3), Zi(v))) // attempted; the peer is gone, it does not arrive
+			l.mu.Unlock()
+		}
+	}
+	return len(p), nil
+}
+
 // fakeConn: a net.Conn fed by the stub's scripted input; with errWithData the last
 // bytes and the read error come back from the same Read call (as crypto/tls does when
 // a close_notify directly follows the data).
@@ -859,6 +919,10 @@ func runRecvWS(in recvIn) Sx {
 			return
 		}
 		close(sendDone)
+		if in.LateRecv != "" {
+			<-ctx.Done() // the harness ends the TCP connection itself
+			return
+		}
 		select {
 		case <-peerClose:
 			c.Close(websocket.StatusNormalClosure, "bye")
@@ -930,11 +994,34 @@ func runRecvWS(in recvIn) Sx {
 		// as Client.Connect does: keepalive and receiver share the quit channel
 		go xmpp.VerifKeepalive(tr, 4*time.Millisecond, quitKA)
 	}
-	go func() { xmpp.VerifRecv(c, quitKA); close(done) }()
+	slog := &sendLog{}
+	if in.LateRecv == "" {
+		go func() { xmpp.VerifRecv(c, quitKA); close(done) }()
+	}
 	select {
 	case <-sendDone:
 	case <-time.After(5 * time.Second):
 		return L(SBytes("ws-server-stuck"))
+	}
+	if in.LateRecv != "" {
+		// the receiver is behind: everything has been sent, and received by the client's machine, before it reads
+		// anything. Then the connection ends (the server's side is closed, orderly: every byte is delivered).
+		kaDone := make(chan struct{})
+		if in.LateRecv == "keepalive" {
+			go func() { xmpp.VerifKeepalive(tr, 4*time.Millisecond, quitKA); close(kaDone) }()
+		} else {
+			tr.LogTraffic(slog)
+			close(kaDone)
+		}
+		time.Sleep(30 * time.Millisecond) // the transport's reader takes in what has arrived
+		ln.cut(true)
+		select {
+		case <-kaDone: // the keepalive's ping has failed and it has closed the transport
+		case <-time.After(6 * time.Second):
+			return L(SBytes("ws-keepalive-did-not-notice"))
+		}
+		time.Sleep(20 * time.Millisecond)
+		go func() { xmpp.VerifRecv(c, quitKA); close(done) }()
 	}
 	want := 0
 	for _, it := range in.Items {
@@ -971,6 +1058,9 @@ func runRecvWS(in recvIn) Sx {
 	// (own deadline: the loop may already have ended -- on a rejected element -- while its last answer is still
 	// travelling to the server; it only bounds the wait for an answer that was never written)
 	adl := time.Now().Add(4 * time.Second)
+	if in.LateRecv != "" {
+		adl = time.Now() // no server left to receive an answer
+	}
 	graced := false
 	for time.Now().Before(adl) {
 		smu.Lock()
@@ -997,6 +1087,8 @@ func runRecvWS(in recvIn) Sx {
 	if in.PeerCut {
 		ln.cut(false) // TCP reset under the websocket: only a failing keepalive can notice
 		close(closed)
+	} else if in.LateRecv != "" {
+		close(closed) // the connection has ended already
 	} else if in.PeerCloseNow {
 		close(closed) // already closed by the server, right behind its last element
 	} else if in.PeerClose {
@@ -1027,5 +1119,10 @@ func runRecvWS(in recvIn) Sx {
 	smu.Lock()
 	defer smu.Unlock()
 	async := canonAsync(lg.async, in.Items)
+	if in.LateRecv == "write" {
+		slog.mu.Lock()
+		answers = append([]Sx{}, slog.answers...)
+		slog.mu.Unlock()
+	}
 	return L(LS(async), LS(answers), B(loopEnded), Zi(nerr), Zi(ndisc), Z(discInb), B(quitBefore), B(sameState), B(quitAtErr))
 }
